@@ -41,6 +41,9 @@ type Fn struct {
 	preds     map[int32][]edge
 	liveIn    map[int32]map[types.Object]bool
 	locals    map[types.Object]bool
+	// PostFacts: formulas that hold right after the given CFG node (facts
+	// established by a rule outside the engine, e.g. an allocation summary)
+	PostFacts map[ast.Node]*Formula
 }
 
 type nodeRef struct {
@@ -403,6 +406,49 @@ func (f *Fn) FromAfterUntil(n ast.Node, st State, stops ...ast.Node) *Analysis {
 	}
 	a.run(b, idx+1, st)
 	return a
+}
+
+// FromUntil runs forward from just before the CFG node containing n and does
+// not continue past the CFG nodes containing any of the stop nodes.
+func (f *Fn) FromUntil(n ast.Node, st State, stops ...ast.Node) *Analysis {
+	b, idx, _, ok := f.Locate(n)
+	a := &Analysis{Fn: f, In: map[int32]State{}, out: map[int32][]State{}, visits: map[int32]int{}, StopAt: map[ast.Node]bool{}}
+	if !ok {
+		return a
+	}
+	for _, s := range stops {
+		if _, _, root, ok := f.Locate(s); ok {
+			a.StopAt[root] = true
+		}
+	}
+	a.run(b, idx, st)
+	return a
+}
+
+// BlockOf returns the CFG block holding the node containing n.
+func (f *Fn) BlockOf(n ast.Node) *cfg.Block {
+	b, _, _, ok := f.Locate(n)
+	if !ok {
+		return nil
+	}
+	return b
+}
+
+// Reentered reports whether the block containing n is entered (again) by
+// propagation, i.e. through some edge, not merely as the starting point.
+func (a *Analysis) Reentered(n ast.Node) bool {
+	b := a.Fn.BlockOf(n)
+	if b == nil {
+		return false
+	}
+	in, ok := a.In[b.Index]
+	return ok && in.Reachable()
+}
+
+// BlockReached reports whether block b is entered by propagation.
+func (a *Analysis) BlockReached(b *cfg.Block) bool {
+	in, ok := a.In[b.Index]
+	return ok && in.Reachable()
 }
 
 // FromAfter runs forward from just after the CFG node containing n.
@@ -776,6 +822,9 @@ func (a *Analysis) step(st State, n ast.Node) State {
 		// range key/value markers
 	default:
 		st = a.callKills(st, n)
+	}
+	if pf, ok := a.Fn.PostFacts[n]; ok && st.Reachable() {
+		st = st.Assume(pf)
 	}
 	return a.clean(st)
 }
